@@ -31,6 +31,9 @@ pub struct StyleCase {
     finish: bool,
     msg: String,
     advance_ms: u64,
+    /// set_tab_width(n) on the bar: before set_style (flag false) or after it (flag true)
+    #[serde(default)]
+    tab_width: Option<(usize, bool)>,
 }
 
 fn cluster_pool() -> BoxedStrategy<String> {
@@ -100,7 +103,7 @@ fn call_strategy() -> BoxedStrategy<BCall> {
         2 => chars(6).prop_map(BCall::TickChars),
         2 => proptest::collection::vec(chars(3), 0..5).prop_map(BCall::TickStrings),
         3 => chars(7).prop_map(BCall::ProgressChars),
-        1 => Just(BCall::WithKey),
+        2 => Just(BCall::WithKey),
     ]
     .boxed()
 }
@@ -122,8 +125,9 @@ fn case_strategy() -> BoxedStrategy<StyleCase> {
         any::<bool>(),
         "[a-z \t\u{4e16}]{0,6}",
         prop_oneof![Just(0u64), 1u64..5000, Just(3_600_000), Just(u32::MAX as u64 * 1000)],
+        proptest::option::weighted(0.4, (prop_oneof![3 => 0usize..10, 2 => 10usize..70, 1 => prop_oneof![Just(255usize), Just(256), Just(1000), Just(4096)]], any::<bool>())),
     )
-        .prop_map(|(calls, (len, pos), cols, ticks, finish, msg, advance_ms)| StyleCase { calls, len, pos, cols, ticks, finish, msg, advance_ms })
+        .prop_map(|(calls, (len, pos), cols, ticks, finish, msg, advance_ms, tab_width)| StyleCase { calls, len, pos, cols, ticks, finish, msg, advance_ms, tab_width })
         .boxed()
 }
 
@@ -204,7 +208,13 @@ fn run_style(c: &StyleCase) -> CaseResult {
     let st = style.clone();
     let r = catch(|| {
         let pb = ProgressBar::with_draw_target(c.len, ProgressDrawTarget::term_like(vt.boxed())).with_message(c.msg.clone());
+        if let Some((tw, false)) = c.tab_width {
+            pb.set_tab_width(tw);
+        }
         pb.set_style(st.clone());
+        if let Some((tw, true)) = c.tab_width {
+            pb.set_tab_width(tw);
+        }
         pb.set_position(c.pos);
         pb.tick();
         clock::advance(Duration::from_millis(c.advance_ms));
@@ -227,11 +237,12 @@ fn run_style(c: &StyleCase) -> CaseResult {
         let _ = st.get_final_tick_str();
     });
     if let Err(p) = r {
-        return Err(Fail::new("draw_panic", format!("style built by {:?} panicked while rendering (len {:?}, pos {}, {} columns): {p}", c.calls, c.len, c.pos, c.cols)));
+        return Err(Fail::new("draw_panic", format!("style built by {:?} panicked while rendering (len {:?}, pos {}, {} columns, tab width {:?}): {p}", c.calls, c.len, c.pos, c.cols, c.tab_width)));
     }
     v.nontrivial = custom_table;
     v.label_if(custom_table, "custom_table_accepted");
     v.label("rendered");
+    v.label_if(matches!(c.tab_width, Some((w, _)) if w > 32) && c.calls.iter().any(|k| matches!(k, BCall::WithKey)), "custom_key_tab_at_width_gt_32");
     Ok(v)
 }
 
@@ -288,7 +299,7 @@ fn decode_style(u: &mut FuzzInput) -> StyleCase {
         5 => (Some(u64::MAX), u64::MAX),
         _ => (Some(0), 0),
     };
-    StyleCase { calls, len, pos, cols: u.n(199) as u16, ticks: u.n(11) as u8, finish: u.bool(), msg: u.short(8), advance_ms: [0u64, 1, 4999, 3_600_000, u32::MAX as u64 * 1000][u.n(4)] }
+    StyleCase { calls, len, pos, cols: u.n(199) as u16, ticks: u.n(11) as u8, finish: u.bool(), msg: u.short(8), advance_ms: [0u64, 1, 4999, 3_600_000, u32::MAX as u64 * 1000][u.n(4)], tab_width: if u.bool() { Some(([0usize, 1, 4, 8, 31, 32, 33, 64, 255, 1000][u.n(9)], u.bool())) } else { None } }
 }
 
 pub fn property() -> Property {
@@ -303,12 +314,12 @@ pub fn property() -> Property {
         ],
         parts: vec![Box::new(Gen::<StyleCase> {
             name: if cfg!(feature = "improved_unicode") { "builder_improved_unicode" } else { "builder" },
-            rule: "1-5 builder calls (with_template/template over all 28 documented keys with grammar-conforming specs, tick_chars, tick_strings, progress_chars with 0..6 clusters of width 0/1/2 mixed, with_key) each under catch_unwind; documented rejections must panic at build; an accepted style is drawn (tick, inc, println, finish/abandon, drop) for pos/len extremes, 1..200 columns, virtual elapsed up to 49 days, and get_tick_str for ticks up to u64::MAX; non-trivial = a non-default tick/progress table was accepted",
+            rule: "1-5 builder calls (with_template/template over all 28 documented keys with grammar-conforming specs, tick_chars, tick_strings, progress_chars with 0..6 clusters of width 0/1/2 mixed, with_key) each under catch_unwind; documented rejections must panic at build; an accepted style is drawn on a bar with tab width 0..4096 set before or after the style (tick, inc, println, finish/abandon, drop) for pos/len extremes, 1..200 columns, virtual elapsed up to 49 days, and get_tick_str for ticks up to u64::MAX; non-trivial = a non-default tick/progress table was accepted",
             strategy: |_| case_strategy(),
             cases: |t| t.pick(36_000, 2_400_000),
             run: run_style,
             signature: no_signature,
-            essential: &["builder_rejected", "documented_rejection", "custom_table_accepted", "rendered", "template_error"],
+            essential: &["builder_rejected", "documented_rejection", "custom_table_accepted", "rendered", "template_error", "custom_key_tab_at_width_gt_32"],
             workers: w,
             decode: Some(decode_style),
         })],
